@@ -183,6 +183,7 @@ def run(ctx):
     ctx.count('fixed_to_generic_routing_cells_proved', rp)
     # R10: fixed-width -> generic-width conversions on rounding cells of the source format (truncation at bit N with guard / sticky, saturation)
     import rules_rounding
+    ctx.trusted += [t for t in rules_rounding.TRUSTED if t not in ctx.trusted]
     ctx.rules.append('R10 rounding cells: fixed-width -> PxE?<N> per (N, sign, source regime, exponent, rounding case at bit N)')
     r10c = r10p = 0
     for xty in XTYS:
